@@ -148,14 +148,52 @@ def run_program(text, optargs):
             err = type(e).__name__
     if err is not None:
         from propka.lib import loadOptions
-        return err, loadOptions(list(optargs) + ["prog.pdb"]), [], "-"
+        return err, loadOptions(list(optargs) + ["prog.pdb"]), [], "-", None
     if rec.pipes_skipped or len(rec.pipes) != len(mol.conformation_names):
         return None
     if [p[0] for p in rec.pipes] != list(mol.conformation_names):
         return None
     if not all(p[7] for p in rec.pipes):
         return None
-    return None, mol.options, [(p[0], p[5], p[6]) for p in rec.pipes], rec.pipes[0][2] if rec.pipes else "-"
+    avr = None
+    if "AVR" in mol.conformations and not getattr(mol.options, "display_coupled_residues", False):
+        avr = []
+        for g in mol.conformations["AVR"].groups:
+            d = lambda t: ",".join("%s:%d" % (hx(x.label), common.bits(float(x.value))) for x in g.determinants[t]) or "-"
+            avr.append("|".join([hx(g.label), hx(g.type), str(common.bits(float(g.pka_value))), str(common.bits(float(g.num_volume))),
+                                 str(common.bits(float(g.energy_volume))), str(common.bits(float(g.energy_local))), str(common.bits(float(g.buried))),
+                                 d("sidechain"), d("backbone"), d("coulomb")]))
+    return None, mol.options, [(p[0], p[5], p[6]) for p in rec.pipes], rec.pipes[0][2] if rec.pipes else "-", avr
+
+
+AVR_COMPARED = [0]
+
+
+def avr_diffs(real, model, tol=1e-9):
+    """the average conformation: groups in order with label and type; numbers to `tol`; the determinants of a kind as a sorted
+    list of (label, value) - the search for coupled groups, which runs between scoring and averaging, re-orders a list when it
+    swaps and swaps back, and re-sums the pKa in the new order"""
+    if len(real) != len(model):
+        return ["%d groups, model %d" % (len(real), len(model))]
+    out = []
+    for r, m in zip(real, model):
+        rf, mf = r.split("|"), m.split("|")
+        lab = unhex(rf[0])
+        if rf[:2] != mf[:2]:
+            out.append("group %s/%s, model %s/%s" % (lab, unhex(rf[1]), unhex(mf[0]), unhex(mf[1])))
+            continue
+        for k, nm in ((2, "pka_value"), (3, "num_volume"), (4, "energy_volume"), (5, "energy_local"), (6, "buried")):
+            a, b = common.unbits(int(rf[k])), common.unbits(int(mf[k]))
+            if not (abs(a - b) <= tol):
+                out.append("%s %s %r, model %r" % (lab, nm, a, b))
+        for k, nm in ((7, "sidechain"), (8, "backbone"), (9, "coulomb")):
+            da = sorted((unhex(x.split(":")[0]), common.unbits(int(x.split(":")[1]))) for x in rf[k].split(",")) if rf[k] != "-" else []
+            db = sorted((unhex(x.split(":")[0]), common.unbits(int(x.split(":")[1]))) for x in mf[k].split(",")) if mf[k] != "-" else []
+            if [x[0] for x in da] != [x[0] for x in db] or any(abs(x[1] - y[1]) > tol for x, y in zip(da, db)):
+                out.append("%s %s determinants %r, model %r" % (lab, nm, da[:4], db[:4]))
+        if len(out) >= 4:
+            break
+    return out
 
 
 def check_program(cases, tol=1e-9):
@@ -169,14 +207,15 @@ def check_program(cases, tol=1e-9):
         if r is None:
             outside += 1
             continue
-        err, options, confs, rp = r
+        err, options, confs, rp, avr = r
         reqs.append(program_request(text, options, rp))
-        todo.append((tag, err, confs))
+        todo.append((tag, err, confs, avr))
     if not reqs:
         return 0, 0, 0, outside, []
     outs = common.driver_batch(reqs)
     bad, nconf, nerr = [], 0, 0
-    for (tag, err, confs), resp in zip(todo, outs):
+    AVF = ["label", "type", "pka_value", "num_volume", "energy_volume", "energy_local", "buried", "sidechain", "backbone", "coulomb"]
+    for (tag, err, confs, avr), resp in zip(todo, outs):
         if err is not None or resp.startswith("err:"):
             if resp != "err:%s" % err:
                 bad.append((tag, ["the program raised %s, the model answered %s" % (err, resp[:60])]))
@@ -187,6 +226,9 @@ def check_program(cases, tol=1e-9):
             bad.append((tag, ["the model answered " + resp]))
             continue
         parts = resp.split("&")
+        mavr = None
+        if parts and parts[-1].startswith("AVR@"):
+            mavr = parts.pop()[4:]
         names = [x.split("@", 1)[0] for x in parts]
         if names != [c[0] for c in confs]:
             bad.append((tag, ["conformations %r, model %r" % ([c[0] for c in confs], names)]))
@@ -209,6 +251,14 @@ def check_program(cases, tol=1e-9):
             if d:
                 bad.append((tag, ["%s: %s" % (name, x) for x in d[:3]]))
                 break
+        else:
+            # the average conformation: every reported group, its numbers as bit patterns, its determinants with labels in order
+            if avr is not None and mavr is not None:
+                AVR_COMPARED[0] += 1
+                ma = mavr.split(";") if mavr not in ("-", "valueerror") else []
+                d = avr_diffs(avr, ma)
+                if d:
+                    bad.append((tag, ["AVR: %s" % x for x in d[:3]]))
     return len(reqs), nconf, nerr, outside, bad
 
 
@@ -262,12 +312,14 @@ def program_tie(ctx, what, extra=()):
     ctx.count("program: PDB texts run through the real program and through Program.run", n)
     ctx.count("program: conformations compared (atoms, hydrogens, groups, records)", nconf)
     ctx.count("program: rejected inputs on which both agree (error class)", nerr)
+    ctx.count("program: average conformations compared (every reported group in order; numbers to 1e-9; determinants per kind as sets of label and value)", AVR_COMPARED[0])
     ctx.count("program: texts outside the model (other parameter files, non-latin-1 text)", outside)
     ctx.count("program: texts with options -k / --protonate-all / -c / --titrate_only",
               sum(1 for c in cases if any(a in ("-k", "--protonate-all", "-c", "--titrate_only") or a.startswith("--titrate_only") for a in c[2])))
     ctx.oblige("correspondence: the program as one Lean function (Program.run: parser, read_pdb, top-up, bonding, SYBYL typing, protonation, "
-               "group extraction and set-up, sort_atoms, covalent coupling, scoring) = the real program from the PDB text on %d texts of %s "
-               "(%d conformations: every atom incl. built hydrogens bit for bit, every group, every determinant and pKa to 1e-9; %d rejected "
+               "group extraction and set-up, sort_atoms, covalent coupling, scoring, average_of_conformations) = the real program from the PDB text on %d texts of %s "
+               "(%d conformations: every atom incl. built hydrogens bit for bit, every group, every determinant and pKa to 1e-9; the average conformation "
+               "group by group; %d rejected "
                "inputs with the same error class)" % (n, what, nconf, nerr),
                not bad, "; ".join("%s: %s" % (t[:60], "; ".join(d[:2])) for t, d in bad[:2])[:700])
     for t, d in bad[:1]:
